@@ -433,12 +433,18 @@ class SparseExtentHeader:
 
         if magic == VMDK_MAGIC:
             self.hdr = c_vmdk.VMDKSparseExtentHeader(fh)
+            versions = (1, 2, 3)
         elif magic == SESPARSE_MAGIC:
             self.hdr = c_vmdk.VMDKSESparseConstHeader(fh)
+            versions = (0x0000000200000001,)
         elif magic == COWD_MAGIC:
             self.hdr = c_vmdk.COWDSparseExtentHeader(fh)
+            versions = (1,)
         else:
             raise NotImplementedError("Unsupported sparse extent")
+
+        if self.hdr.version not in versions:
+            raise NotImplementedError(f"Unsupported sparse extent version: 0x{self.hdr.version:x}")
 
     def __getattr__(self, attr: str) -> Any:
         return getattr(self.hdr, attr)
